@@ -14,7 +14,7 @@ Qed.
    unfold down to those, then compute *)
 Ltac wfj_tac d :=
   cbv [a_GeneralTransactionMetadata a_Metadatum a_ScriptRef a_TransactionOutput a_TransactionOutputs a_TransactionBody
-       a_Redeemers a_DataOption a_Datum];
+       a_Redeemers a_DataOption a_Datum a_TransactionWitnessSet a_AuxiliaryData a_Transaction a_BootstrapWitness a_NativeScripts a_Block a_Header a_HeaderBody a_VRFCert];
   cbn [wfj all_wfj all_wfj_opt forallb]; rewrite ?a_NativeScript_wfj; vm_compute; reflexivity.
 
 Theorem serde_table_wfj emb unemb d : Forall (fun e => wfj (snd e) = true) (serde_table emb unemb d).
